@@ -2,7 +2,9 @@ package main
 
 import (
 	"fmt"
+	"go/constant"
 	"go/token"
+	"go/types"
 	"strings"
 
 	"golang.org/x/tools/go/ssa"
@@ -12,7 +14,7 @@ func init() {
 	register(&propertyDef{
 		id:    "C03",
 		title: "the run result is the one the workflow's declarative meaning prescribes",
-		rules: []ruleFunc{c03R1, c03R2, c03R3, c03R4, c03R5, c03R6, c03R7, c03R8, c03R9, c03R10, c03R11, c03R12},
+		rules: []ruleFunc{c03R1, c03R2, c03R3, c03R4, c03R5, c03R6, c03R7, c03R8, c03R9, c03R10, c03R11, c03R12, c03R13},
 		decided: "necessary conditions only: unresolvable nodes never produce an output or a stage input (R1); the returned id and data come from the same workflow-output node (R2); when a stage output is produced every alternative output of that stage is marked unresolvable, the only skip being the produced one (R3); " +
 			"Execute has exactly one success return, guarded by the output-schema lookup and validation, all other returns carry an error and empty results (R4); the no-output-possible error is raised (R5 = C01.R6). Every result-less return carries a provably non-nil error (R4). Shared: a stage is reported done only after its input was received (R8 = C12.R12); every reference is wired into the DAG (R6 = C02.R2) and stage outputs are published before notification in one critical section (R7 = C02.R4).",
 		notDecided: "which output wins among several producible ones, equality of the data with a reference evaluation of the expressions, unresolvability propagation inside dgraph (these need an interpreter and runs).",
@@ -567,4 +569,110 @@ func c03R11(c *Ctx) {
 		}
 	}
 	c.minCount(rule, "stores into the awaited-outputs map", n, 1)
+}
+
+// C03.R13 the ready dependency groups of a round are handled before its other ready nodes.
+func c03R13(c *Ctx) {
+	const rule = "C03.R13"
+	c.explain("C03.R13 the loop of notifySteps that evaluates the data of ready nodes does not range over the map of ready nodes itself (Go iterates maps in random order) but over a list in which the nodes of kind dependency-group come first: the list is `append(groups, others...)`, and `groups` is only appended to on the true edge of the kind test. A `!soft-optional` reference is present exactly when its group node is resolved at the moment the containing node is evaluated; when both become ready in the same round (a required and an optional reference to one output; an optional reference to the workflow input) the order of processing decides, and in map order the field is there or not at random (found defect D25)")
+	fn := c.Fn("(*workflow.loopState).notifySteps")
+	if fn == nil {
+		return
+	}
+	// the evaluating loop: the one that contains the call of resolveExpressions
+	var proc *loopInfo
+	for _, li := range loopsOf(fn) {
+		for b := range li.Blocks {
+			for _, in := range b.Instrs {
+				if cc := callCommon(in); cc != nil {
+					if f := cc.StaticCallee(); f != nil && funcSimpleName(f) == "resolveExpressions" {
+						if proc == nil || len(li.Blocks) < len(proc.Blocks) {
+							proc = li
+						}
+					}
+				}
+			}
+		}
+	}
+	if proc == nil {
+		c.undecided(rule, "processing-loop", c.pos(fn.Pos()), "the loop of notifySteps that evaluates node data was not found")
+		return
+	}
+	if proc.Range == nil {
+		c.undecided(rule, "processing-loop", c.blockPos(proc.Header), "the operand of the evaluating loop was not recognised")
+		return
+	}
+	_, overMap := proc.Range.Type().Underlying().(*types.Map)
+	if overMap {
+		c.bad(rule, "processing-order", c.blockPos(proc.Header), "notifySteps evaluates the ready nodes in map order: a node that is ready in the same round as the group of one of its `!soft-optional` inputs sees the group resolved or not at random, so the optional field is present in some runs and missing in others although its source was produced before")
+		return
+	}
+	// the value of the dependency-group kind constant (a constant whose name ends in DependencyGroup)
+	groupKind := "dependencyGroup"
+	if pk := c.AllPkgs[pkgWorkflow]; pk != nil && pk.Types != nil {
+		for _, n := range pk.Types.Scope().Names() {
+			if cst, ok := pk.Types.Scope().Lookup(n).(*types.Const); ok && strings.HasSuffix(n, "DependencyGroup") && cst.Val().Kind() == constant.String {
+				groupKind = constant.StringVal(cst.Val())
+			}
+		}
+	}
+	// the list is append(groups, others...): its first operand is filled only under the group-kind test
+	isGroupTest := func(cond ssa.Value) bool {
+		found := false
+		var walk func(v ssa.Value, d int)
+		walk = func(v ssa.Value, d int) {
+			if d > 4 || found {
+				return
+			}
+			switch x := v.(type) {
+			case *ssa.BinOp:
+				if x.Op == token.EQL {
+					if s, ok := constString(x.Y); ok && s == groupKind {
+						found = true
+					}
+					if s, ok := constString(x.X); ok && s == groupKind {
+						found = true
+					}
+				}
+				walk(x.X, d+1)
+				walk(x.Y, d+1)
+			case *ssa.Phi:
+				for _, e := range x.Edges {
+					walk(e, d+1)
+				}
+			}
+		}
+		walk(cond, 0)
+		return found
+	}
+	groupsFirst := false
+	detail := "the list the loop ranges over is not built as append(<group nodes>, <other nodes>...)"
+	derivesFrom(proc.Range, func(v ssa.Value) bool {
+		call, ok := v.(*ssa.Call)
+		if !ok || !isBuiltinCall(call, "append") || len(call.Call.Args) != 2 {
+			return false
+		}
+		// append(A, B...): B is a slice (not a single element wrapped by the compiler)
+		first := call.Call.Args[0]
+		okFirst := false
+		derivesFrom(first, func(w ssa.Value) bool {
+			ap, ok := w.(*ssa.Call)
+			if !ok || !isBuiltinCall(ap, "append") || ap == call {
+				return false
+			}
+			if guardedBy(ap, true, isGroupTest) != nil {
+				okFirst = true
+			} else {
+				okFirst = false
+				detail = "the first part of the list is also appended to outside the dependency-group test (" + c.instrPos(ap) + ")"
+				return true
+			}
+			return false
+		})
+		if okFirst {
+			groupsFirst = true
+		}
+		return okFirst
+	})
+	c.verdict(groupsFirst, rule, "processing-order", c.blockPos(proc.Header), "ready dependency groups are handled before the other ready nodes of the round", detail+": the order in which a `!soft-optional` reference and the node that contains it are handled is left to chance")
 }
